@@ -217,6 +217,8 @@ def enumerate_case(case, ctx=None, pairs='sample'):
     """Returns Result; enumerates every single fault position (and fault pairs)."""
     dry = Run(case)
     counts, fail = dry.execute({})
+    if fail and fail[0].endswith('unexpected-exception:TypeError') and case['cfg'].get('mode') == 'exact' and case['cfg']['loss'].get('kind') == '01':
+        return Result(True, nontrivial=False, labels=['exact_arithmetic_unsupported', 'discontinuous_loss_not_compared_in_floats'])
     if fail and fail[0].endswith('unexpected-exception:TypeError') and case['cfg'].get('mode') == 'exact':
         # float-only (NumPy) functions applied to losses: enumerate the fault positions of the float twin instead
         case = dict(case, cfg=dict(case['cfg'], mode='float'))
